@@ -6,7 +6,7 @@
 use rayon::prelude::*;
 use serde_json::json;
 use vh::c15::nackx::window;
-use vh::c15::rtcpx::{Spec, Text};
+use vh::c15::rtcpx::{Mutn, Spec, Text};
 use vh::c15::rtpx::{ExtAlgCase, ExtShape, RtpCase, RtxCase};
 use vh::c15::{Acc, Case, run_case};
 use vh::{Tier, Violation};
@@ -274,6 +274,521 @@ fn subsets(win: &[u16], max: usize) -> Vec<Case> {
     out
 }
 
+// =============================================================================================
+// Thorough-tier deep blocks: streamed (index -> case), never materialised.
+
+/// Mixed-radix index decoder.
+struct Ix(u64);
+impl Ix {
+    fn take(&mut self, n: u64) -> u64 {
+        let r = self.0 % n;
+        self.0 /= n;
+        r
+    }
+    fn pick<T: Copy>(&mut self, v: &[T]) -> T {
+        v[self.take(v.len() as u64) as usize]
+    }
+}
+
+/// Coarse result class of a deep-block case (keeps the class table small: the per-case bucket
+/// strings of the original sections would need gigabytes here).
+fn coarse_class(name: &str, c: &Case, o: &vh::c15::Out) -> String {
+    let res = if !o.fails.is_empty() {
+        "violation"
+    } else if o.accepted {
+        "ok"
+    } else {
+        "rejected"
+    };
+    match c {
+        Case::Rtp(r) => format!(
+            "{name}:ext={},cc={},pad={},pl={},pt={},m={}:{res}",
+            r.ext.bucket(),
+            match r.csrc { 0 => "0", 1..=14 => "1..14", 15 => "15", _ => ">15" },
+            match r.pad { 0 => "0", 1..=254 => "1..254", _ => "255" },
+            match r.payload { 0 => "0", 1..=3 => "1..3", _ => ">3" },
+            match r.pt { 0..=63 => "0..63", 64..=95 => "64..95", _ => "96..127" },
+            r.marker as u8
+        ),
+        Case::ExtAlg(e) => format!("{name}:seed={},ops={}:{res}", e.seed.bucket(), e.ops.len()),
+        Case::RembWire { exp, mantissa, .. } => {
+            let fits = ((*mantissa as u128) << exp) <= u64::MAX as u128;
+            format!("{name}:exp={exp},m={},fits={}:{res}", match mantissa { 0 => "0", 1..=0x1FFFF => "<2^17", _ => ">=2^17" }, fits as u8)
+        }
+        Case::Rtcp(v) if v.len() >= 2 => {
+            let feat = v.iter().map(|s| s.feature()).find(|f| *f != "in-range").unwrap_or("in-range");
+            format!("{name}:{}:{feat}:{res}", v.iter().map(|s| s.kind()).collect::<Vec<_>>().join("+"))
+        }
+        _ => o.class.clone(),
+    }
+}
+
+#[allow(clippy::too_many_arguments)]
+fn run_stream<F>(name: &str, n: u64, generate: F, total: &mut Acc, sections: &mut Vec<serde_json::Value>, samples: &mut Vec<serde_json::Value>, space: &str)
+where
+    F: Fn(u64) -> Option<Case> + Sync,
+{
+    let t = std::time::Instant::now();
+    let acc = (0..n)
+        .into_par_iter()
+        .fold(Acc::default, |mut a, i| {
+            if let Some(c) = generate(i) {
+                let mut out = run_case(&c);
+                out.class = coarse_class(name, &c, &out);
+                a.push(i, &c, out);
+            }
+            a
+        })
+        .reduce(Acc::default, Acc::merge);
+    if acc.accepted == 0 {
+        vh::machinery_failure(&format!("deep block {name}: the codec accepted none of its inputs (vacuous)"));
+    }
+    if let Some(c) = (0..n).find_map(&generate) {
+        let o = run_case(&c);
+        samples.push(json!({"section": name, "case": c, "result_class": coarse_class(name, &c, &o), "failures": o.fails.iter().map(|f| f.sig.clone()).collect::<Vec<_>>()}));
+    }
+    sections.push(json!({
+        "section": name, "tier_block": "deep", "space": space, "index_space": n, "cases": acc.evals, "accepted_by_marshaller_or_parser": acc.accepted,
+        "reference_comparisons": acc.ref_checks, "distinct_classes": acc.classes.len(),
+        "violating_signatures": acc.viols.len(), "wall_s": t.elapsed().as_secs_f64(), "exhaustive": true,
+    }));
+    let prev = std::mem::take(total);
+    *total = prev.merge(acc);
+}
+
+const LOSTS_X: [i32; 41] = [
+    0, 1, -1, 2, -2, 127, 128, -128, -129, 255, 256, -256, -257, 32767, 32768, -32768, -32769, 65535, 65536, -65536, -65537,
+    (1 << 22) - 1, 1 << 22, -(1 << 22), -(1 << 22) - 1, (1 << 23) - 2, (1 << 23) - 1, 1 << 23, (1 << 23) + 1, -(1 << 23) + 1, -(1 << 23),
+    -(1 << 23) - 1, -(1 << 23) - 2, (1 << 24) - 1, 1 << 24, -(1 << 24), i32::MAX, i32::MIN, 0x55_5555, -0x2A_AAAB, 0x00_FF00,
+];
+
+fn text_ok(len: usize, kind: u8) -> bool {
+    !((kind == 1 && len < 2) || (kind == 2 && len < 3))
+}
+
+/// Single-packet specs used as atoms of the large compound / mutation blocks.
+fn atoms_large() -> Vec<Spec> {
+    let mut v = vec![];
+    for blocks in 0..=31usize {
+        for lost in [0i32, -1, (1 << 23) - 1] {
+            for fill in [1u8, 2] {
+                v.push(Spec::Sr { blocks, lost, fill });
+                v.push(Spec::Rr { blocks, lost, fill });
+            }
+        }
+    }
+    let lens: Vec<usize> = (0..=17).chain(250..=255).collect();
+    let lens = &lens[..];
+    for chunks in [1usize, 2, 3, 31] {
+        v.push(Spec::Sdes { chunks, items: 0, ty: 1, text: Text { len: 0, kind: 0 } });
+        for items in [1usize, 2] {
+            for &len in lens {
+                v.push(Spec::Sdes { chunks, items, ty: if len % 2 == 0 { 1 } else { 8 }, text: Text { len, kind: 0 } });
+            }
+        }
+    }
+    for sources in [0usize, 1, 2, 3, 4, 30, 31] {
+        v.push(Spec::Bye { sources, reason: None });
+        for &len in lens {
+            v.push(Spec::Bye { sources, reason: Some(Text { len, kind: if len >= 3 { 2 } else { 0 } }) });
+        }
+    }
+    for fill in 0..3u8 {
+        v.push(Spec::Pli { fill });
+    }
+    for entries in 0..=40usize {
+        for fill in [1u8, 2] {
+            v.push(Spec::Fir { entries, fill });
+        }
+    }
+    for lost in [vec![0u16], vec![65535, 0], vec![65535, 0, 17, 40], vec![100, 117, 134, 151, 168], vec![5, 5, 5], (0..40u16).map(|i| i.wrapping_mul(3).wrapping_sub(20)).collect()] {
+        for fill in [1u8, 2] {
+            v.push(Spec::Nack { lost: lost.clone(), fill });
+        }
+    }
+    for bitrate in [0u64, 1, 750_000, (1 << 18) - 1, 1 << 18, 1 << 40, 0x3FFFF << 46] {
+        for ssrcs in [0usize, 1, 2, 3, 4, 5, 127, 128, 254, 255] {
+            v.push(Spec::Remb { bitrate, ssrcs, fill: 2 });
+        }
+    }
+    for kind in (0..=3u8).chain(10..=22) {
+        v.push(Spec::Twcc { kind, fill: 2 });
+    }
+    for plen in (1usize..=40).chain([253, 254, 255, 256, 1497, 1498, 1499, 1500]) {
+        v.push(Spec::TwccX { base: 65535, count: 3, ref_time: 0x80_0000, fb: 255, plen });
+    }
+    v
+}
+
+/// A smaller atom list (every packet type, alignment-sensitive variants) for triples.
+fn atoms_small() -> Vec<Spec> {
+    let mut v = compound_reps();
+    for len in [0usize, 1, 2, 3] {
+        v.push(Spec::Sdes { chunks: 2, items: 1, ty: 1, text: Text { len, kind: 0 } });
+        v.push(Spec::Bye { sources: 1, reason: Some(Text { len, kind: 0 }) });
+    }
+    for plen in [1usize, 2, 3, 5] {
+        v.push(Spec::TwccX { base: 1, count: 1, ref_time: 1, fb: 1, plen });
+    }
+    v.push(Spec::Sdes { chunks: 1, items: 0, ty: 1, text: Text { len: 0, kind: 0 } });
+    v.push(Spec::Nack { lost: vec![100, 117, 134, 151], fill: 1 });
+    v.push(Spec::Remb { bitrate: 0, ssrcs: 255, fill: 1 });
+    v.push(Spec::Fir { entries: 31, fill: 1 });
+    v
+}
+
+fn passing_alone(v: Vec<Spec>) -> Vec<Spec> {
+    v.into_par_iter()
+        .filter(|r| {
+            let o = run_case(&Case::Rtcp(vec![r.clone()]));
+            o.fails.is_empty() && o.accepted
+        })
+        .collect()
+}
+
+fn mutations() -> Vec<Mutn> {
+    let mut v = vec![];
+    for d in [-4i8, -3, -2, -1, 1, 2, 3, 4] {
+        v.push(Mutn::Len(d));
+    }
+    for n in 1..=8u8 {
+        v.push(Mutn::Cut(n));
+    }
+    for n in 1..=8u8 {
+        v.push(Mutn::Add(n, 0));
+        v.push(Mutn::Add(n, 0xFF));
+        v.push(Mutn::Add(n, 0x81));
+    }
+    for d in [-2i8, -1, 1, 2] {
+        v.push(Mutn::Count(d));
+    }
+    v.push(Mutn::PadBit);
+    for ver in [0u8, 1, 3] {
+        v.push(Mutn::Ver(ver));
+    }
+    for pt in 192..=208u8 {
+        v.push(Mutn::Pt(pt));
+    }
+    v
+}
+
+fn deep_blocks(total: &mut Acc, sections: &mut Vec<serde_json::Value>, samples: &mut Vec<serde_json::Value>, rep: &mut vh::Report) {
+    macro_rules! block {
+        ($name:expr, $n:expr, $space:expr, $gen:expr) => {
+            run_stream($name, $n, $gen, total, sections, samples, $space)
+        };
+    }
+    // ---- RTP -------------------------------------------------------------------------------
+    block!("rtp_header_full_product", 128 * 2 * 256 * 9 * 16 * 6 * 3, "full product PT 0..=127 x marker x padding 0..=255 x payload 0..=8 x CSRC 0..=15 x extension {none, one-byte 1 elem, one-byte 3 elems, two-byte, empty one-byte block, raw} x 3 field fills (seq/ts/ssrc/CSRC all-zero, all-ones, mixed)", |i| {
+        let mut x = Ix(i);
+        let pt = x.take(128) as u8;
+        let marker = x.take(2) == 1;
+        let pad = x.take(256) as u8;
+        let payload = x.take(9) as usize;
+        let csrc = x.take(16) as usize;
+        let ext = match x.take(6) {
+            0 => ExtShape::None,
+            1 => ExtShape::OneByte(vec![3]),
+            2 => ExtShape::OneByte(vec![1, 16, 2]),
+            3 => ExtShape::TwoByte(vec![0, 17]),
+            4 => ExtShape::OneByteEmpty,
+            _ => ExtShape::Raw(0xABCD, 2),
+        };
+        let fill = x.take(3) as u8;
+        Some(Case::Rtp(RtpCase { csrc, ext, pad, payload, marker, pt, fill }))
+    });
+    block!("rtp_pad_payload_grid", 256 * 301 * 2 * 4, "padding 0..=255 x payload 0..=300 x CSRC {0,15} x ext {none, one-byte, two-byte, raw}", |i| {
+        let mut x = Ix(i);
+        let pad = x.take(256) as u8;
+        let payload = x.take(301) as usize;
+        let csrc = x.pick(&[0usize, 15]);
+        let ext = match x.take(4) {
+            0 => ExtShape::None,
+            1 => ExtShape::OneByte(vec![1, 16]),
+            2 => ExtShape::TwoByte(vec![0, 255]),
+            _ => ExtShape::Raw(0xABCD, 1),
+        };
+        Some(Case::Rtp(RtpCase { csrc, ext, pad, payload, marker: true, pt: 96, fill: 2 }))
+    });
+    block!("rtp_ext_1b_single", 14 * 16 * 8 * 2 * 2, "one-byte form: id 1..=14 x len 1..=16 x 8 padding placements x CSRC {0,15} x padding {0,5}", |i| {
+        let mut x = Ix(i);
+        let id = 1 + x.take(14) as u8;
+        let len = 1 + x.take(16) as u8;
+        let pm = x.take(8) as u8;
+        let csrc = x.pick(&[0usize, 15]);
+        let pad = x.pick(&[0u8, 5]);
+        Some(Case::Rtp(RtpCase { csrc, ext: ExtShape::OneByteX(vec![(id, len)], pm), pad, payload: 7, marker: false, pt: 111, fill: 2 }))
+    });
+    block!("rtp_ext_1b_pair", 224 * 224 * 8 * 2, "one-byte form: every ordered pair of (id 1..=14, len 1..=16) elements with distinct ids x 8 padding placements x CSRC {0,15}", |i| {
+        let mut x = Ix(i);
+        let a = x.take(224);
+        let b = x.take(224);
+        let pm = x.take(8) as u8;
+        let csrc = x.pick(&[0usize, 15]);
+        let e = |k: u64| (1 + (k / 16) as u8, 1 + (k % 16) as u8);
+        if e(a).0 == e(b).0 {
+            return None;
+        }
+        Some(Case::Rtp(RtpCase { csrc, ext: ExtShape::OneByteX(vec![e(a), e(b)], pm), pad: 0, payload: 3, marker: true, pt: 100, fill: 2 }))
+    });
+    block!("rtp_ext_1b_triple", 224 * 224 * 224 * 2, "one-byte form: every ordered triple of (id 1..=14, len 1..=16) elements with distinct ids x padding placements {none, all}", |i| {
+        let mut x = Ix(i);
+        let e = |k: u64| (1 + (k / 16) as u8, 1 + (k % 16) as u8);
+        let (a, b, c) = (e(x.take(224)), e(x.take(224)), e(x.take(224)));
+        let pm = x.pick(&[0u8, 7]);
+        if a.0 == b.0 || a.0 == c.0 || b.0 == c.0 {
+            return None;
+        }
+        Some(Case::Rtp(RtpCase { csrc: 1, ext: ExtShape::OneByteX(vec![a, b, c], pm), pad: 0, payload: 2, marker: false, pt: 96, fill: 2 }))
+    });
+    block!("rtp_ext_2b_single", 255 * 256 * 4 * 2, "two-byte form: id 1..=255 x len 0..=255 x 4 padding placements x CSRC {0,15}", |i| {
+        let mut x = Ix(i);
+        let id = 1 + x.take(255) as u8;
+        let len = x.take(256) as u8;
+        let pm = x.pick(&[0u8, 1, 4, 5]);
+        let csrc = x.pick(&[0usize, 15]);
+        Some(Case::Rtp(RtpCase { csrc, ext: ExtShape::TwoByteX(vec![(id, len)], pm), pad: 0, payload: 4, marker: false, pt: 97, fill: 2 }))
+    });
+    block!("rtp_ext_2b_pair", 255 * 255 * 12 * 12 * 3, "two-byte form: every ordered pair of distinct ids 1..=255 x both lengths over {0,1,2,3,4,5,15,16,17,253,254,255} x 3 padding placements", |i| {
+        let mut x = Ix(i);
+        let ls = [0u8, 1, 2, 3, 4, 5, 15, 16, 17, 253, 254, 255];
+        let a = 1 + x.take(255) as u8;
+        let b = 1 + x.take(255) as u8;
+        let (l1, l2) = (x.pick(&ls), x.pick(&ls));
+        let pm = x.pick(&[0u8, 2, 7]);
+        if a == b {
+            return None;
+        }
+        Some(Case::Rtp(RtpCase { csrc: 0, ext: ExtShape::TwoByteX(vec![(a, l1), (b, l2)], pm), pad: 1, payload: 1, marker: true, pt: 98, fill: 2 }))
+    });
+    block!("rtp_ext_2b_len_pair", 20 * 256 * 256, "two-byte form: every ordered pair of distinct ids from {1,15,16,128,255} x len 0..=255 x len 0..=255", |i| {
+        let mut x = Ix(i);
+        let ids = [1u8, 15, 16, 128, 255];
+        let k = x.take(20);
+        let a = ids[(k / 4) as usize];
+        let b = ids.iter().copied().filter(|v| *v != a).nth((k % 4) as usize).unwrap();
+        let (l1, l2) = (x.take(256) as u8, x.take(256) as u8);
+        Some(Case::Rtp(RtpCase { csrc: 0, ext: ExtShape::TwoByteX(vec![(a, l1), (b, l2)], 0), pad: 0, payload: 1, marker: true, pt: 98, fill: 2 }))
+    });
+    let words: Vec<u32> = (0..=1100u32).chain([16383, 16384, 65535, 65536]).collect();
+    let nw = words.len() as u64;
+    block!("rtp_ext_raw_words", nw * 5 * 2 * 2, "raw profile extension: words 0..=1100, 16383, 16384, 65535 and 65536 (over the 16-bit length field) x 5 profiles x CSRC {0,15} x padding {0,1}", |i| {
+        let mut x = Ix(i);
+        let w = words[x.take(nw) as usize];
+        let profile = x.pick(&[0xABCDu16, 0x0000, 0xFFFF, 0xBEDF, 0x0FFF]);
+        let csrc = x.pick(&[0usize, 15]);
+        let pad = x.pick(&[0u8, 1]);
+        Some(Case::Rtp(RtpCase { csrc, ext: ExtShape::RawW(profile, w), pad, payload: 2, marker: false, pt: 96, fill: 2 }))
+    });
+    // ---- extension algebra: the full (id, len) alphabet, sequences of length <= 2
+    let mut seeds = ext_shapes(Tier::Quick);
+    for pm in [1u8, 2, 4, 7] {
+        seeds.push(ExtShape::OneByteX(vec![(3, 2), (9, 5)], pm));
+    }
+    let ns = seeds.len() as u64;
+    block!("ext_algebra_full", ns * (224 + 224 * 224), "every set_extension sequence of length 1..=2 over the full alphabet id 1..=14 x len 1..=16 on every seed extension shape (quick shapes + 4 padded ones), then get of every id", |i| {
+        let mut x = Ix(i);
+        let seed = seeds[x.take(ns) as usize].clone();
+        let k = x.take(224 + 224 * 224);
+        let e = |k: u64| (1 + (k / 16) as u8, 1 + (k % 16) as u8);
+        let ops = if k < 224 { vec![e(k)] } else { vec![e((k - 224) / 224), e((k - 224) % 224)] };
+        Some(Case::ExtAlg(ExtAlgCase { seed, csrc: 0, ops }))
+    });
+    let alpha3: Vec<(u8, u8)> = [1u8, 2, 7, 13, 14].iter().flat_map(|id| [1u8, 2, 3, 4, 5, 8, 15, 16].map(|l| (*id, l))).collect();
+    let na = alpha3.len() as u64;
+    block!("ext_algebra_depth3", ns * na * na * na * 2, "every set_extension sequence of length 3 over ids {1,2,7,13,14} x lens {1,2,3,4,5,8,15,16} on every seed shape x CSRC {0,15}", |i| {
+        let mut x = Ix(i);
+        let seed = seeds[x.take(ns) as usize].clone();
+        let ops = vec![alpha3[x.take(na) as usize], alpha3[x.take(na) as usize], alpha3[x.take(na) as usize]];
+        let csrc = x.pick(&[0usize, 15]);
+        Some(Case::ExtAlg(ExtAlgCase { seed, csrc, ops }))
+    });
+    // ---- RTX
+    block!("rtx_full", 65536 * 256 * 2 * 2, "all 65536 sequence numbers x payload 0..=255 x marker x 2 original shapes", |i| {
+        let mut x = Ix(i);
+        let seq = x.take(65536) as u16;
+        let payload = x.take(256) as usize;
+        let marker = x.take(2) == 1;
+        let shape = x.take(2) as u8;
+        Some(Case::Rtx(RtxCase { seq, payload, marker, shape }))
+    });
+    block!("rtx_payload_types", 128 * 128 * 7 * 2, "primary PT 0..=127 x RTX PT 0..=127 x 7 boundary sequence numbers x marker", |i| {
+        let mut x = Ix(i);
+        let pt = x.take(128) as u8;
+        let rtx_pt = x.take(128) as u8;
+        let seq = x.pick(&[0u16, 1, 0x7FFF, 0x8000, 0xFFFE, 0xFFFF, 0x1234]);
+        let marker = x.take(2) == 1;
+        Some(Case::RtxPt { seq, pt, rtx_pt, marker })
+    });
+    // ---- RTCP single packets
+    block!("rtcp_report_full", 2 * 32 * 41 * 256 * 2, "SR and RR x report blocks 0..=31 x 41 cumulative-loss values (24-bit signed edges, both signs, out-of-range) x fraction lost 0..=255 x 2 fills", |i| {
+        let mut x = Ix(i);
+        let sr = x.take(2) == 0;
+        let blocks = x.take(32) as usize;
+        let lost = x.pick(&LOSTS_X);
+        let fraction = x.take(256) as u8;
+        let fill = x.pick(&[0u8, 2]);
+        Some(Case::Rtcp(vec![if sr { Spec::SrX { blocks, lost, fraction, fill } } else { Spec::RrX { blocks, lost, fraction, fill } }]))
+    });
+    block!("rtcp_sdes_item_full", 256 * 256 * 3 * 2, "SDES: item type 0..=255 x text length 0..=255 x 3 text kinds x chunks {1,2}", |i| {
+        let mut x = Ix(i);
+        let ty = x.take(256) as u8;
+        let len = x.take(256) as usize;
+        let kind = x.take(3) as u8;
+        let chunks = 1 + x.take(2) as usize;
+        if !text_ok(len, kind) {
+            return None;
+        }
+        Some(Case::Rtcp(vec![Spec::SdesX { chunks, items: vec![(ty, Text { len, kind })] }]))
+    });
+    block!("rtcp_sdes_item_pairs", 36 * 256 * 256, "SDES: two items per chunk, types from {1,2,7,8,9,255}^2 x text lengths 0..=255 x 0..=255, two chunks", |i| {
+        let mut x = Ix(i);
+        let t = [1u8, 2, 7, 8, 9, 255];
+        let (t1, t2) = (x.pick(&t), x.pick(&t));
+        let (l1, l2) = (x.take(256) as usize, x.take(256) as usize);
+        Some(Case::Rtcp(vec![Spec::SdesX { chunks: 2, items: vec![(t1, Text { len: l1, kind: 0 }), (t2, Text { len: l2, kind: if l2 >= 3 { 2 } else { 0 } })] }]))
+    });
+    block!("rtcp_bye_full", 32 * (1 + 256 * 3), "BYE: sources 0..=31 x reason {absent, length 0..=255 x 3 text kinds}", |i| {
+        let mut x = Ix(i);
+        let sources = x.take(32) as usize;
+        let k = x.take(1 + 256 * 3);
+        if k == 0 {
+            return Some(Case::Rtcp(vec![Spec::Bye { sources, reason: None }]));
+        }
+        let (len, kind) = (((k - 1) / 3) as usize, ((k - 1) % 3) as u8);
+        if !text_ok(len, kind) {
+            return None;
+        }
+        Some(Case::Rtcp(vec![Spec::Bye { sources, reason: Some(Text { len, kind }) }]))
+    });
+    block!("rtcp_fir_full", 41 * 256 * 3, "FIR: entries 0..=40 x command sequence number 0..=255 x 3 fills", |i| {
+        let mut x = Ix(i);
+        let entries = x.take(41) as usize;
+        let seq = x.take(256) as u8;
+        let fill = x.take(3) as u8;
+        Some(Case::Rtcp(vec![Spec::FirX { entries, seq, fill }]))
+    });
+    block!("remb_wire_full", 64 * (1 << 18) * 3, "hand-built REMB images: all 64 exponents x all 2^18 mantissas x SSRC count {0,1,2}", |i| {
+        let mut x = Ix(i);
+        let mantissa = x.take(1 << 18) as u32;
+        let exp = x.take(64) as u8;
+        let ssrcs = x.take(3) as usize;
+        Some(Case::RembWire { exp, mantissa, ssrcs })
+    });
+    block!("remb_wire_ssrcs", 256 * 7 * 64, "hand-built REMB images: SSRC count 0..=255 x 7 mantissa edge values x all 64 exponents", |i| {
+        let mut x = Ix(i);
+        let ssrcs = x.take(256) as usize;
+        let mantissa = x.pick(&[0u32, 1, 2, 0x1FFFF, 0x20000, 0x3FFFE, 0x3FFFF]);
+        let exp = x.take(64) as u8;
+        Some(Case::RembWire { exp, mantissa, ssrcs })
+    });
+    let mut rates: Vec<u64> = vec![0, 750_000, u64::MAX];
+    for k in 0..64 {
+        rates.extend([1u64 << k, (1u64 << k).wrapping_sub(1), (1u64 << k) + 1, 0x3FFFFu64.checked_shl(k).filter(|v| v >> k == 0x3FFFF).unwrap_or(3), 0x20001u64.checked_shl(k).filter(|v| v >> k == 0x20001).unwrap_or(5)]);
+    }
+    rates.sort_unstable();
+    rates.dedup();
+    let nr = rates.len() as u64;
+    block!("rtcp_remb_full", nr * 257 * 2, "REMB: bitrate lattice (2^k, 2^k+-1, 0x3FFFF<<k, 0x20001<<k for every k) x SSRC count 0..=256 x 2 fills", |i| {
+        let mut x = Ix(i);
+        let bitrate = rates[x.take(nr) as usize];
+        let ssrcs = x.take(257) as usize;
+        let fill = x.pick(&[0u8, 2]);
+        Some(Case::Rtcp(vec![Spec::Remb { bitrate, ssrcs, fill }]))
+    });
+    block!("rtcp_twcc_payload_len", 1501 * 3, "TWCC: opaque payload length 0..=1500 x 3 header fills (P-bit padding 1..3 whenever the length is not a multiple of four)", |i| {
+        let mut x = Ix(i);
+        let plen = x.take(1501) as usize;
+        let (base, count, ref_time, fb) = x.pick(&[(0u16, 0u16, 0u32, 0u8), (65535, 65535, 0xFF_FFFF, 255), (0x1234, 7, 0x80_0000, 0x5A)]);
+        Some(Case::Rtcp(vec![Spec::TwccX { base, count, ref_time, fb, plen }]))
+    });
+    let l16: [u16; 16] = [0, 1, 2, 127, 128, 255, 256, 257, 32767, 32768, 32769, 65279, 65280, 65534, 65535, 0x1234];
+    let lrt: [u32; 12] = [0, 1, 0xFF, 0x100, 0xFFFF, 0x1_0000, 0x7F_FFFF, 0x80_0000, 0x80_0001, 0xFF_FFFE, 0xFF_FFFF, 0x12_3456];
+    block!("rtcp_twcc_header", 16 * 8 * 12 * 256 * 2, "TWCC header: base sequence (16 edge values) x status count (8) x 24-bit reference time (12, incl. the sign bit) x feedback count 0..=255 x payload {0,4} bytes", |i| {
+        let mut x = Ix(i);
+        let base = x.pick(&l16);
+        let count = x.pick(&[0u16, 1, 2, 255, 256, 32768, 65534, 65535]);
+        let ref_time = x.pick(&lrt);
+        let fb = x.take(256) as u8;
+        let plen = x.pick(&[0usize, 4]);
+        Some(Case::Rtcp(vec![Spec::TwccX { base, count, ref_time, fb, plen }]))
+    });
+    // ---- NACK
+    let pids: Vec<u16> = (0..1024u16).chain(31744..33792).chain(64512..=65535).collect();
+    let np = pids.len() as u64;
+    block!("nack_wire_full", np * 65536, "generic NACK FCI: 4096 packet ids (0..=1023, 31744..=33791, 64512..=65535) x all 65536 bitmasks", |i| {
+        let mut x = Ix(i);
+        let blp = x.take(65536) as u16;
+        let pid = pids[x.take(np) as usize];
+        Some(Case::NackWire { pid, blp })
+    });
+    let mut masks: Vec<u16> = vec![0];
+    for a in 0..16 {
+        masks.push(1 << a);
+        for b in (a + 1)..16 {
+            masks.push((1 << a) | (1 << b));
+        }
+    }
+    let inv: Vec<u16> = masks.iter().map(|m| !m).collect();
+    masks.extend(inv);
+    let nm = masks.len() as u64;
+    block!("nack_wire_two_fci", 4 * nm * 41 * nm, "generic NACK with two FCI entries: pid1 in {65520,65535,0,100} x pid2 = pid1-20..=pid1+20 x both bitmasks over every mask with <=2 or >=14 bits set (274 each); overlapping and repeated ranges", |i| {
+        let mut x = Ix(i);
+        let b2 = masks[x.take(nm) as usize];
+        let b1 = masks[x.take(nm) as usize];
+        let d = x.take(41) as u16;
+        let p1 = x.pick(&[65520u16, 65535, 0, 100]);
+        Some(Case::NackWireN { pairs: vec![(p1, b1), (p1.wrapping_sub(20).wrapping_add(d), b2)] })
+    });
+    let win26 = window(26);
+    block!("nack_set_powerset", (1 << 26) - 1, "every non-empty subset of the 26-value window centred on the 65535/0 wrap", |i| {
+        let m = i + 1;
+        Some(Case::NackSet { seqs: (0..26).filter(|b| m >> b & 1 == 1).map(|b| win26[b]).collect() })
+    });
+    block!("nack_set_comb", 3 * 65535, "every non-empty subset of a 16-point comb with stride 16, 17 and 18 straddling the wrap (up to 16 FCI entries per packet)", |i| {
+        let mut x = Ix(i);
+        let m = 1 + x.take(65535);
+        let stride = x.pick(&[16u16, 17, 18]);
+        Some(Case::NackSet { seqs: (0..16u16).filter(|b| m >> b & 1 == 1).map(|b| 0u16.wrapping_sub(8 * stride).wrapping_add(b * stride)).collect() })
+    });
+    // ---- compounds and mutations
+    let listed = atoms_large().len();
+    let big = passing_alone(atoms_large());
+    let small = passing_alone(atoms_small());
+    rep.set("deep_compound_atoms", json!({"large_listed": listed, "large_passing_alone": big.len(), "small_passing_alone": small.len()}));
+    let (nb, nsm) = (big.len() as u64, small.len() as u64);
+    block!("rtcp_compound_pairs_large", nb * nb, "every ordered pair of the large atom list (every packet type over count / text-length / alignment edge values, P-bit padded TWCC) as a compound", |i| {
+        Some(Case::Rtcp(vec![big[(i / nb) as usize].clone(), big[(i % nb) as usize].clone()]))
+    });
+    let medium: Vec<Spec> = { let step = (big.len() / 96).max(1); small.iter().cloned().chain(big.iter().step_by(step).cloned()).collect() };
+    let nmd = medium.len() as u64;
+    block!("rtcp_compound_triples_medium", nmd * nmd * nmd, "every ordered triple of the medium atom list (small list + every k-th large atom) as a compound", |i| {
+        Some(Case::Rtcp(vec![medium[(i / nmd / nmd) as usize].clone(), medium[(i / nmd % nmd) as usize].clone(), medium[(i % nmd) as usize].clone()]))
+    });
+    block!("rtcp_compound_triples", nsm * nsm * nsm, "every ordered triple of the small atom list as a compound", |i| {
+        Some(Case::Rtcp(vec![small[(i / nsm / nsm) as usize].clone(), small[(i / nsm % nsm) as usize].clone(), small[(i % nsm) as usize].clone()]))
+    });
+    let reps17 = passing_alone(compound_reps());
+    let n17 = reps17.len() as u64;
+    block!("rtcp_compound_quadruples", n17 * n17 * n17 * n17, "every ordered quadruple of the 17 packet-type representatives as a compound", |i| {
+        let mut x = Ix(i);
+        Some(Case::Rtcp((0..4).map(|_| reps17[x.take(n17) as usize].clone()).collect()))
+    });
+    let muts = mutations();
+    let nmu = muts.len() as u64;
+    block!("rtcp_wire_mutation_single", nb * nmu, "canonical image of every large atom x every structural mutation (length field +-1..4 words, truncation 1..8 bytes, 1..8 trailing bytes of 3 values, count +-1..2, P bit, version, packet type 192..=208)", |i| {
+        Some(Case::WireMut { specs: vec![big[(i / nmu) as usize].clone()], which: 0, m: muts[(i % nmu) as usize].clone() })
+    });
+    block!("rtcp_wire_mutation_pair", nsm * nsm * 2 * nmu, "canonical image of every ordered pair of small atoms x mutated packet (first, second) x every structural mutation", |i| {
+        let mut x = Ix(i);
+        let m = muts[x.take(nmu) as usize].clone();
+        let which = x.take(2) as usize;
+        let b = small[x.take(nsm) as usize].clone();
+        let a = small[x.take(nsm) as usize].clone();
+        Some(Case::WireMut { specs: vec![a, b], which, m })
+    });
+}
+
 fn replay(path: &std::path::Path) -> i32 {
     let txt = std::fs::read_to_string(path).unwrap_or_else(|e| vh::machinery_failure(&format!("cannot read {}: {e}", path.display())));
     let v: serde_json::Value = serde_json::from_str(&txt).unwrap_or_else(|e| vh::machinery_failure(&format!("bad replay json: {e}")));
@@ -396,6 +911,10 @@ fn main() {
     }
     run_section("rtx", rx, &mut total, &mut sections, &mut samples);
 
+    if tier == Tier::Thorough {
+        deep_blocks(&mut total, &mut sections, &mut samples, &mut rep);
+    }
+
     // ---- verdict & evidence
     let ok_classes = total.classes.keys().filter(|k| k.ends_with(":ok")).count();
     let rejected_classes = total.classes.keys().filter(|k| k.contains(":rejected")).count();
@@ -415,7 +934,7 @@ fn main() {
         "rule",
         "Complete enumeration (no sampling, no cap) of the boundary-value products listed under `sections`: RTP header shapes (CSRC count x extension shape x padding x payload size x marker x PT x field fill) in both directions with the rtp crate; every set_extension sequence of length <=3 over ids x lengths on every extension-shape seed; every supported RTCP packet type over its boundary values (counts 0/1/31/32, loss-count extremes, text lengths around 255, REMB limits, FIR, TWCC) and every ordered pair (thorough: triple) of packet-type representatives as a compound, both directions with the rtcp crate; hand-built REMB (all 64 exponents x 7 mantissas) and 24-bit loss-field wire images; NACK (16 boundary pids x all 65536 bitmasks), every subset of size <=4 (thorough <=5) of the 40-value 65535/0 wrap window, every ordered (last, seq) pair of that window through the receiver gap detector and the sender buffer; RTX wrap/unwrap for all 65536 sequence numbers x payload sizes x marker x 2 original shapes. A case is counted as distinct/non-trivial once per distinct (packet kind, boundary-bucket vector of the input, result class) triple, result class being ok / rejected-by-marshaller / violation kind; repeats of a triple (e.g. the 65536 RTX sequence numbers inside one bucket) are not counted.",
     );
-    for s in samples.into_iter().take(12) {
+    for s in samples.into_iter().take(tier.pick(12, 64)) {
         rep.sample(s);
     }
     rep.assume("Reference = webrtc-rs rtp/rtcp 0.17.2 (webrtc-util Marshal/Unmarshal); where rustrtc and the reference may legitimately differ, decoded fields are compared, never bytes: RTP padding fill bytes, BYE 'no reason' vs empty reason (the reference cannot tell them apart), FIR media-SSRC (must be 0, RFC 5104), 24-bit loss count held unsigned by the reference (compared modulo 2^24), TWCC trailing zero bytes after the last delta.");
@@ -423,6 +942,11 @@ fn main() {
     rep.assume("Where the wire format itself saturates or rounds, the expected decode is the saturated/rounded value: loss counts outside the signed 24-bit range are clamped (RFC 3550 A.3), REMB bitrates are floored to an 18-bit mantissa with the minimal exponent. Everything else must come back exactly, or the marshaller must refuse (Err).");
     rep.assume("NACK packets are compared as sets of lost sequence numbers (the statement speaks of the set); SDES/BYE text is valid UTF-8 (rustrtc models text as String); SDES item types 1..=8 (the reference knows no others); PT<=127, reference_time<2^24 (wider values are outside the field ranges).");
     rep.assume("Field values other than the stated boundary dimensions are seeded (three fills: all-zero, all-ones, one mixed pattern), not enumerated.");
+    if tier == Tier::Thorough {
+        rep.set("deep_blocks_note", "thorough tier: in addition to the sections of the rule, every block listed under `sections` with tier_block=deep is a complete enumeration of the product stated in its `space` (streamed index -> case; `cases` is the number of generated cases, `index_space` minus `cases` are index combinations that do not denote a case, e.g. two elements with the same id)");
+        rep.assume("Deep blocks: result classes are coarse (boundary buckets of the enumerated dimensions x result), not one per case. The reverse direction (reference serialises, rustrtc parses) is taken only where the reference reads its own serialisation back unchanged (it mis-sizes raw extension blocks of 65536 bytes and more). SDES item types 9..=255 and TWCC packets with an opaque payload or a status count without chunks are judged by the inverse laws only (the reference knows neither). Duplicate extension ids within one block are not enumerated (RFC 8285 does not define their meaning).");
+        rep.assume("rtcp_wire_mutation blocks: the property speaks of canonical encodings, so whether a mutated image (declared length / count / padding / version / type differing from the actual bytes) is accepted is not judged; judged is only that nothing panics and that, whenever rustrtc parses it and its marshaller accepts the parsed packets again, parse(marshal(P)) == P and the reference reads marshal(P) to the same fields.");
+    }
 
     let mut v: Vec<_> = total.viols.into_iter().collect();
     v.sort_by(|a, b| a.0.cmp(&b.0));
